@@ -1,7 +1,7 @@
 """Which harnesses decide which property, per tier (DESIGN.md §5/§6)."""
 
 INP_LEN = 320
-CAP = {"quick": 900, "thorough": 3600}     # wall-clock cap per harness (s)
+CAP = {"quick": 900, "thorough": 3600, "candidates": 3600}     # wall-clock cap per harness (s)
 MEM_GB_SOLO = 52                           # solo retry after an out-of-memory run
 MEM_GB = 24                                # RLIMIT_AS per harness process tree
 
@@ -256,7 +256,7 @@ PLAN["C05"] = {
 }
 PLAN["C06"] = {
     "quick": hs(["c06_remove_s3_none", "c06_remove_s2_pull"], unwind=8, stubs="alloc+absmove") +
-             hs(["c06_whole1_s3_none"], unwind=8, stubs="alloc+absmove") +
+             hs(["c06_whole1_s3_none"], unwind=8, stubs="alloc+absmove") + hs(["c06_whole2_s2_push"], unwind=10, stubs="alloc+absmove") +
              hs(["c05_passing_like_s3_pull"], unwind=8, stubs="alloc+absmove"),
     "thorough": hs(["c06_remove_s3_none", "c06_remove_s3_pull", "c06_remove_s3_push", "c06_remove_s2_pull", "c06_remove_s1_none"], unwind=8, stubs="alloc+absmove", cap=5400) +
                 hs(["c06_whole1_s3_none", "c06_whole1_s3_pull", "c06_whole1_s3_push"], unwind=8, stubs="alloc+absmove", cap=5400) +
